@@ -378,12 +378,19 @@ def api_statics(ctx):
                     bad_use.append((n, b, bb, "initialised by %s, which takes values from its environment" % (show(ini)[:80] if ini else "?")))
     for n, b, bb, why in bad_use:
         out.append(bad("static-use|%s|%s" % (n.split("::")[-1], b.path), "static %s is %s: it must be a memo of a constant (S.get_or_init(f) with a parameterless, capture-free f)" % (n, why), b.loc(bb)))
+    # BLOCK_LOOKUP, the memo the reference tree has: every use of it is a get_or_init (checked above for any static),
+    # and what it memoises is BlockLookup::new - wherever the accessor lives (the memo normal form records the
+    # sites it read through as (function, initialiser))
     bu = users.get("category::BLOCK_LOOKUP", set())
-    out.append(ok("static-users") if (bu <= {"category::block_lookup"} and bu) or "category::BLOCK_LOOKUP" not in names else bad("static-users", "BLOCK_LOOKUP must be used only in category::block_lookup; used in %s" % sorted(bu), None))
+    misused = [x for x in bad_use if x[0] == "category::BLOCK_LOOKUP"]
+    out.append(ok("static-users") if (bu and not misused) or "category::BLOCK_LOOKUP" not in names else bad("static-users", "BLOCK_LOOKUP is not used, or is used other than as a memo (BLOCK_LOOKUP.get_or_init(..)); used in %s" % sorted(bu), None))
     bl = ctx.body("category::block_lookup")
+    memo_sites = [m for m in getattr(ctx.f, "memos", []) if m[1] == "category::BlockLookup::new"]
     if bl is not None:
         rs = {strip_ver(render(p.ret)) for p in ctx.walk(bl).paths}
         out.append(ok("get_or_init") if rs == {"OnceLock::get_or_init(static BLOCK_LOOKUP, fn BlockLookup::new)"} else bad("get_or_init", "block_lookup must be BLOCK_LOOKUP.get_or_init(BlockLookup::new); found %s" % sorted(rs), bl.loc()))
+    elif "category::BLOCK_LOOKUP" in names:
+        out.append(ok("get_or_init") if memo_sites else bad("get_or_init", "no function reads BLOCK_LOOKUP as BLOCK_LOOKUP.get_or_init(BlockLookup::new)", None))
     # thread_local / lazy statics hidden in consts (LocalKey)
     for b in ctx.f.bodies:
         if b.kind.startswith("Const") or b.kind.startswith("Static"):
